@@ -32,8 +32,10 @@ def _fn(tree: ast.Module, name: str) -> ast.FunctionDef:
 
 def _nested_range_loops(fn: ast.FunctionDef) -> Tuple[ast.For, ast.For]:
     for n in ast.walk(fn):
-        if isinstance(n, ast.For) and n.body and isinstance(n.body[0], ast.For):
-            return n, n.body[0]
+        if isinstance(n, ast.For):
+            inner = [x for x in n.body if isinstance(x, ast.For)]
+            if len(inner) == 1:
+                return n, inner[0]
     raise AnalysisError("R7.1: nested i/j loops not found in %s" % fn.name)
 
 
